@@ -351,6 +351,27 @@ def _edge_cover(init, edges, rng, extra_steps):
     return scheds
 
 
+def tlaps(ctx, files, main):
+    """re-run a TLAPS proof in a scratch copy; returns the number of obligations proved (machinery failure otherwise)"""
+    import re
+    import shutil
+    import subprocess
+    pd = os.path.join(ctx.tmp, "tlaps_" + main)
+    os.makedirs(pd, exist_ok=True)
+    for f in files:
+        shutil.copy(os.path.join(tlc.SPEC_DIR, f), pd)
+    try:
+        p = subprocess.run(["tlapm", main + ".tla"], cwd=pd, stdout=subprocess.PIPE, stderr=subprocess.STDOUT, text=True, timeout=1800)
+        out = p.stdout
+    except (subprocess.TimeoutExpired, FileNotFoundError) as ex:
+        out = "tlapm unavailable: %s" % ex
+    shutil.rmtree(pd, ignore_errors=True)
+    m = re.search(r"All (\d+) obligations proved", out)
+    if not m:
+        raise tlc.MachineryError("TLAPS proof %s did not go through:\n%s" % (main, out[-1500:]))
+    return int(m.group(1))
+
+
 def decode_loop(ctx):
     import glob
     import shutil
@@ -367,23 +388,7 @@ def decode_loop(ctx):
     ctx.extra["decode_loop_hazard_reprocessing_reachable_in_model"] = True
     if not ctx.quick:
         # unbounded: the TLAPS proof of PublishAfterProcessing + type invariant for any NB / Poison (spec/DecodeLoopProofs.tla)
-        import shutil
-        import subprocess
-        pd = os.path.join(ctx.tmp, "tlaps")
-        os.makedirs(pd, exist_ok=True)
-        for f in ("DecodeLoop.tla", "DecodeLoopProofs.tla"):
-            shutil.copy(os.path.join(tlc.SPEC_DIR, f), pd)
-        try:
-            p = subprocess.run(["tlapm", "DecodeLoopProofs.tla"], cwd=pd, stdout=subprocess.PIPE, stderr=subprocess.STDOUT, text=True, timeout=1800)
-            out = p.stdout
-        except (subprocess.TimeoutExpired, FileNotFoundError) as ex:
-            out = "tlapm unavailable: %s" % ex
-        import re
-        m = re.search(r"All (\d+) obligations proved", out)
-        if not m:
-            raise tlc.MachineryError("TLAPS proof of DecodeLoopProofs did not go through:\n" + out[-1500:])
-        ctx.extra["decode_loop_tlaps_obligations_proved"] = int(m.group(1))
-        shutil.rmtree(pd, ignore_errors=True)
+        ctx.extra["decode_loop_tlaps_obligations_proved"] = tlaps(ctx, ("DecodeLoop.tla", "DecodeLoopProofs.tla"), "DecodeLoopProofs")
     # B: one schedule per transition of the complete state graph + behaviours simulated by TLC, stepped through the real Decode.run
     V = []
     nsched = {"edge_cover": 0, "simulated": 0}
@@ -659,6 +664,8 @@ def run(ctx):
     for s in sorted(set(starts)):
         ctx.model_check("TrackerSM", cfg_text=base.replace("Start = 1", "Start = %d" % s).replace("MaxLevel = 6", "MaxLevel = %d" % lvl),
                         what="C17 tracker design, start %d" % s, timeout=6000)
+    # the staleness bound for ALL time stamps on the half-second grid (TLAPS, over the definitions Tracker is built on; < 1 s)
+    ctx.extra["staleness_bound_tlaps_obligations_proved"] = tlaps(ctx, ("TrackerTime.tla", "TrackerProofs.tla"), "TrackerProofs")
     V = [history(ctx, ctx.rng, k) for k in range(ctx.pick(600, 12000))]
     V += simulated_histories(ctx)
     ev = ctx.replay(V)
